@@ -243,7 +243,7 @@ impl Property for C12 {
         ]
     }
     fn plan(&self, tier: Tier) -> Plan {
-        Plan { workers: tier.pick(4, 16), cases_per_worker: tier.pick(150, 600), max_shrink_iters: 60 }
+        Plan { workers: tier.pick(8, 16), cases_per_worker: tier.pick(200, 600), max_shrink_iters: 60 }
     }
     fn strategy(&self, _tier: Tier) -> BoxedStrategy<Case> {
         let delta = prop_oneof![
